@@ -2,6 +2,7 @@
 // classes on one process), dumps them (global triplets per level + row partition), and executes histories of
 // cycle()/solve()/Krylov operations, recording inputs and outputs.
 #include "par.hpp"
+#include <map>
 #include "raptor/gallery/par_stencil.hpp"
 #include "raptor/gallery/stencil.hpp"
 #include "raptor/gallery/diffusion.hpp"
@@ -21,7 +22,7 @@ static Problem gen_problem(vh::Rng& g, int it, bool spd_only)
     int cap = 12 + std::min(60, 3 * it);
     auto add = [&](int i, int j, double v) { p.t.r.push_back(i); p.t.c.push_back(j); p.t.v.push_back(v); };
     if (p.kind == 0) {            // rotated anisotropic diffusion stencil (gallery)
-        p.use_stencil = true; p.grid[0] = g.range(3, 9); p.grid[1] = g.range(3, 8); p.eps = g.coin() ? 0.001 : 0.1 + g.unit(); p.theta = g.coin() ? 0 : M_PI / g.range(3, 8);
+        p.use_stencil = true; p.grid[0] = g.range(3, 9); p.grid[1] = p.grid[0];   // square grids: the gallery generator is wrong on unequal extents (C19 finding) p.eps = g.coin() ? 0.001 : 0.1 + g.unit(); p.theta = g.coin() ? 0 : M_PI / g.range(3, 8);
         p.n = p.grid[0] * p.grid[1];
     } else if (p.kind == 1 || p.kind == 4) {   // weighted graph Laplacian of a random (possibly disconnected) graph + shift; kind 4 adds decoupled diagonal-only rows
         int n = g.range(4, cap); p.n = n; std::vector<double> diag(n, 0.0);
@@ -83,9 +84,23 @@ static ParMultilevel* make_solver(const Opts& o)
 
 // hierarchy dump: nlev | per level: n | firsts(np+1) | A triplets (i j bits)* | hasP | P triplets | nc
 static std::vector<long long> ents_bits(ParCSRMatrix* M) { return flat(G(vh::local_entries(M, false))); }
+// The library identifies the unknowns of a coarse level by the fine-level identifiers of its C-points / roots
+// (local_row_map of A_{l+1} = on_proc_column_map of P_l); the dump renumbers every level contiguously in rank
+// order. An identifier that no rank owns is written as -1 (a column map that refers to a non-existing unknown).
 static std::vector<long long> dump_hierarchy(ParMultilevel* ml, std::vector<long long>* shape = nullptr)
 {
     std::vector<long long> h; int nl = (int)ml->levels.size(); h.push_back(nl);
+    std::vector<std::map<long long, long long>> idmap(nl + 1);
+    for (int l = 0; l < nl; l++) {
+        ParCSRMatrix* A = ml->levels[l]->A;
+        std::vector<long long> mine; for (int i = 0; i < A->local_num_rows; i++) mine.push_back(i < (int)A->local_row_map.size() ? A->local_row_map[i] : A->partition->first_local_row + i);
+        auto all = flat(G(mine));
+        if (E.rank == 0) for (size_t k = 0; k < all.size(); k++) idmap[l][all[k]] = (long long)k;
+    }
+    auto tr = [&](std::vector<long long>& e, int lrow, int lcol) {       // triplets (row id, col id, bits) -> contiguous indices
+        for (size_t k = 0; k + 2 < e.size(); k += 3) {
+            auto r = idmap[lrow].find(e[k]); auto c = idmap[lcol].find(e[k + 1]);
+            e[k] = r == idmap[lrow].end() ? -1 : r->second; e[k + 1] = c == idmap[lcol].end() ? -1 : c->second; } };
     for (int l = 0; l < nl; l++) {
         ParCSRMatrix* A = ml->levels[l]->A; ParCSRMatrix* P = ml->levels[l]->P;
         auto rows = G({ (long long)A->local_num_rows, (long long)A->global_num_rows, (long long)A->global_num_cols,
@@ -95,6 +110,7 @@ static std::vector<long long> dump_hierarchy(ParMultilevel* ml, std::vector<long
         auto ae = ents_bits(A);
         std::vector<long long> pe; if (P) pe = ents_bits(P);
         if (E.rank == 0) {
+            tr(ae, l, l); if (P) tr(pe, l, l + 1 < nl ? l + 1 : l);
             h.push_back((long long)rows.size() * 12); for (auto& v : rows) for (auto x : v) h.push_back(x);
             h.push_back((long long)ae.size()); h.insert(h.end(), ae.begin(), ae.end());
             h.push_back(P ? 1 : 0); h.push_back((long long)pe.size()); h.insert(h.end(), pe.begin(), pe.end());
